@@ -33,5 +33,5 @@ def run(ctx):
         "disk buckets without symlink following (following symlinks leaves the root by design)",
         "normalpath_windows.go is not exercised on this platform",
     ]
-    ctx.notes["kinds"] = "os, os-map, os-map-map, os-chain, os-filter, mem, mem-map, mem-map-map, mem-chain, mem-filter; untar/unzip strip 0..2 into os and mem-map; bufcas.NewFileNode"
-    return vlib.finish(ctx, rule="every raw path over 7 component symbols up to the length bound (TLC-enumerated, expectation computed by PathEscape.tla) x 7 operations x 10 bucket kinds on a universe with sentinels outside every root; distinct = raw paths")
+    ctx.notes["kinds"] = "os, os-map, os-map-map, os-chain, os-filter, os-filternot (negated matcher: hidden under every spelling), os-pfxmap / os-pfxmaprw (the raw path as the prefix of a view nested in another view), and the same on memory; untar/unzip strip 0..2 into os and mem-map; bufcas.NewFileNode"
+    return vlib.finish(ctx, rule="every raw path over 7 component symbols up to the length bound (TLC-enumerated, expectation computed by PathEscape.tla) x 7 operations x 16 bucket kinds (incl. the raw path used as the untrusted prefix of a nested view, and a negated filter) on a universe with sentinels outside every root; distinct = raw paths")
